@@ -176,3 +176,52 @@ Theorem C09_struct_tail_refuted :
   Some [1; 2; 3; 4; 5; 6; 7; 8; 9; 10; 11; 12; 13; 14; 15; 16; 0xA5; 0xA5; 0xA5; 0xA5].
 Proof. exact struct18_tail_lost_refuted. Qed.
 Print Assumptions C09_struct_tail_refuted.
+
+(* An unreadable string pointer: the stored bytes depend on the pointer VALUE only (the model performs no
+   load through it) and replay shows "<0x...>" with that value *)
+Theorem C09_unreadable_pointer : forall syms fill inp st s p,
+  m_stop st = false -> is_arg s -> s_fmt s = FStr -> s_size s = 8 -> lenN (m_val st) = VAL_SIZE ->
+  arg_word inp s = Some p -> p < 2 ^ 64 -> p <> 0 -> readable inp p = false ->
+  m_total st + need s (ABad p) <= MAX_SIZE ->
+  exists chunk,
+    m_done (step fill inp false st s) = m_done st ++ chunk /\
+    lenN chunk = need s (ABad p) /\
+    m_total (step fill inp false st s) = m_total st + lenN chunk /\
+    forall later, In (fst (show_one syms s (chunk ++ later))) (accept s (ABad p)) /\
+                  snd (show_one syms s (chunk ++ later)) = lenN chunk.
+Proof. exact bad_ptr_arg_roundtrip. Qed.
+Print Assumptions C09_unreadable_pointer.
+
+Theorem C09_null_pointer : forall syms fill inp st s,
+  m_stop st = false -> is_arg s -> s_fmt s = FStr -> s_size s = 8 -> lenN (m_val st) = VAL_SIZE ->
+  arg_word inp s = Some 0 ->
+  m_total st + need s ANull <= MAX_SIZE ->
+  exists chunk,
+    m_done (step fill inp false st s) = m_done st ++ chunk /\
+    lenN chunk = need s ANull /\
+    m_total (step fill inp false st s) = m_total st + lenN chunk /\
+    forall later, In (fst (show_one syms s (chunk ++ later))) (accept s ANull) /\
+                  snd (show_one syms s (chunk ++ later)) = lenN chunk.
+Proof. exact null_arg_roundtrip. Qed.
+Print Assumptions C09_null_pointer.
+
+(* ---------------------------------------------------------------- whole calls *)
+(* C09 roundtrip.  `covered inp s a` = spec s names (by index 1..100, %reg or %stack+1..100) a word of the call
+   that is: an integer/char of size 1/2/4/8 in format d i u x o c (outside the listed auto-neg32 class), or the
+   address of a NUL-free string (any length >= 0, any bytes 1..255, not "\xff\xff\xff\xff"), or an unreadable
+   pointer, or NULL.  For every such argument list, in any number and order, whose encoding fits the 1020 bytes:
+   the text get_argspec_string produces from the bytes save_to_argbuf recorded passes the property checker
+   ok_args against the values passed (the same checker the tie applies to the real `uftrace replay` output). *)
+Theorem C09_roundtrip : forall syms fill inp l,
+  l <> [] ->
+  Forall (fun p => is_arg (fst p) /\ covered inp (fst p) (snd p)) l ->
+  fits l = true ->
+  ok_args l (show_args syms (map fst l) (payload (run fill inp false (map fst l)))) = true.
+Proof. exact call_roundtrip. Qed.
+Print Assumptions C09_roundtrip.
+
+(* its hypotheses are satisfiable: f(-5, "hi", <unreadable>, NULL) is shown as (-5, "hi", "<0x2000>", "NULL") *)
+Theorem C09_roundtrip_nonvacuous :
+  ex_call <> [] /\ Forall (fun p => is_arg (fst p) /\ covered ex_inp (fst p) (snd p)) ex_call /\ fits ex_call = true.
+Proof. exact ex_call_covered. Qed.
+Print Assumptions C09_roundtrip_nonvacuous.
